@@ -30,6 +30,22 @@ type walker struct {
 	ops    []seenOp // every instruction seen by instrs, with its first LEB immediate
 	inElemItem bool // walking an item expression of an element segment
 	elemGlobalGet bool // some element item expression is a global.get
+	types  []typeSite // every position that holds a value/reference type or a block type (retype pass)
+	nTypes int        // entries of the type section
+}
+
+// typeSite is a position of the binary that names a type: a value-type byte (function type entry, local
+// declaration, global type, table element type, element segment type, select t*, ref.null) or the block
+// type of block/loop/if (value-type byte, 0x40, or a type index).
+type typeSite struct {
+	Off, Len int
+	Kind     string
+	Block    bool
+}
+
+func (w *walker) typeByte(kind string) byte {
+	w.types = append(w.types, typeSite{Off: w.p, Len: 1, Kind: kind})
+	return w.byte_()
 }
 
 type seenOp struct {
@@ -199,9 +215,14 @@ func walkModule(b []byte) *walker {
 					w.fail("functype")
 				}
 				pc := w.uleb("type.param.count")
-				w.p += int(pc)
+				for j := uint64(0); j < pc; j++ {
+					w.typeByte("type.param")
+				}
 				rc := w.uleb("type.result.count")
-				w.p += int(rc)
+				for j := uint64(0); j < rc; j++ {
+					w.typeByte("type.result")
+				}
+				w.nTypes++
 			}
 		case 2:
 			c := w.uleb("import.count")
@@ -212,12 +233,12 @@ func walkModule(b []byte) *walker {
 				case 0:
 					w.uleb("import.func.typeidx")
 				case 1:
-					w.byte_()
+					w.typeByte("import.table.type")
 					w.limits("import.table")
 				case 2:
 					w.limits("import.mem")
 				case 3:
-					w.byte_()
+					w.typeByte("import.global.type")
 					w.byte_()
 				default:
 					w.fail("import kind %d", k)
@@ -231,7 +252,7 @@ func walkModule(b []byte) *walker {
 		case 4:
 			c := w.uleb("table.count")
 			for i := uint64(0); i < c; i++ {
-				w.byte_()
+				w.typeByte("table.type")
 				w.limits("table")
 			}
 		case 5:
@@ -242,7 +263,7 @@ func walkModule(b []byte) *walker {
 		case 6:
 			c := w.uleb("global.count")
 			for i := uint64(0); i < c; i++ {
-				w.byte_()
+				w.typeByte("global.type")
 				w.byte_()
 				w.constExpr()
 			}
@@ -266,7 +287,11 @@ func walkModule(b []byte) *walker {
 					w.constExpr()
 				}
 				if flag&3 != 0 {
-					w.byte_() // elemkind / reftype
+					if flag&4 != 0 {
+						w.typeByte("elem.type")
+					} else {
+						w.byte_() // elemkind
+					}
 				}
 				n := w.uleb("elem.init.count")
 				for j := uint64(0); j < n; j++ {
@@ -287,7 +312,7 @@ func walkModule(b []byte) *walker {
 				lg := w.uleb("code.localgroups.count")
 				for j := uint64(0); j < lg; j++ {
 					w.uleb("code.local.n")
-					w.byte_()
+					w.typeByte("code.local.type")
 				}
 				w.instrs(true)
 				if w.p != bend {
@@ -334,7 +359,9 @@ func (w *walker) instrs(untilEnd bool) {
 			}
 			depth--
 		case op == 0x02 || op == 0x03 || op == 0x04:
+			bs := w.p
 			w.sleb("imm.blocktype", 33)
+			w.types = append(w.types, typeSite{Off: bs, Len: w.p - bs, Kind: "blocktype", Block: true})
 			depth++
 		case op == 0x0c || op == 0x0d:
 			w.uleb("imm.label")
@@ -352,6 +379,7 @@ func (w *walker) instrs(untilEnd bool) {
 		case op == 0x1c:
 			n := w.uleb("imm.select.count")
 			for i := uint64(0); i < n; i++ {
+				w.types = append(w.types, typeSite{Off: w.p, Len: 1, Kind: "select.type"})
 				w.imm1("imm.select.type")
 			}
 		case op >= 0x20 && op <= 0x22:
@@ -377,6 +405,7 @@ func (w *walker) instrs(untilEnd bool) {
 		case op == 0x44:
 			w.p += 8
 		case op == 0xd0:
+			w.types = append(w.types, typeSite{Off: w.p, Len: 1, Kind: "ref.null.type"})
 			w.imm1("imm.reftype")
 		case op == 0xd2:
 			if w.inElemItem {
